@@ -602,6 +602,15 @@ def conformance(o, family, module, cfg, pkg, schedules, *, test="TestExec", tag=
                     rep = (t2, v2)
                     context = ctxs
                     break
+        if rep is None and sid > 40 and sid < 6000:
+            # ... or on what the WHOLE batch before it left behind (a process-wide cache that only wraps after thousands of
+            # keys): once more after every predecessor of the batch
+            ctxs = schedules[:sid + 1]
+            t2, s2, _ = run_schedules(pid, pkg, test, ctxs, tag=tag + "_reall", env=env, timeout=exec_timeout)
+            v2 = validate_traces(pid, family, module, cfg, t2, timeout=tv_timeout, dfs=dfs)
+            if v2.rejected:
+                rep = (t2, v2)
+                context = ctxs
         if rep is None:
             unreproduced.append((sid, pos, reason, traces[ti]))
             if len(unreproduced) >= 6 or len(unreproduced) >= len(seen_sched):
